@@ -1517,3 +1517,15 @@ func ifaceMeasureIter(i *Iter) int {
 //@   invariant 0 phase: (i.off == old(i.off) && i.t == TagObjectStart && i.addNext == 0 && len(stack) == 1 && len(dst) == len(old(dst)) && sameSlice(dst, old(dst))) || (i.off == old(i.off)+1 && i.t == TagObjectEnd && i.addNext == 0 && len(stack) == 2 && stack[1] == 2 && appended1(dst, old(dst), '{')) || (i.off == old(i.off)+2 && i.t == TagRoot && i.cur == uint64(old(i.off))-2 && i.addNext == 0 && len(stack) == 1 && appended2(dst, old(dst), '{', '}'))
 //@   decreases 0 marshalMeasure(i)
 
+// An iterator positioned ON a root by Advance() (the whole root queued for skipping) marshals the root's content.
+// Smallest instance: a root holding the empty object.
+//@ func (*Iter).MarshalJSONBuffer variant root-after-advance
+//@   props C10
+//@   requires iterOK(i) && i.tape.Strings != nil && 1 <= i.off && i.off < 1<<40 && len(i.tape.Tape) == i.off+3
+//@   requires i.t == TagRoot && i.cur == uint64(i.off)+3 && i.addNext == 3
+//@   requires i.tape.Tape[i.off] == uint64(TagObjectStart)<<56|(uint64(i.off)+2) && i.tape.Tape[i.off+1] == uint64(TagObjectEnd)<<56|uint64(i.off) && i.tape.Tape[i.off+2] == uint64(TagRoot)<<56|uint64(i.off-1)
+//@   ensures marshals: result1 == nil && appended2(result0, old(dst), '{', '}')
+//@   invariant 0 iterOK(i) && len(stack) >= 1 && stack[0] == 0
+//@   invariant 0 phase: (i.off == old(i.off) && i.t == TagRoot && i.cur == uint64(old(i.off))+3 && len(stack) == 1 && len(dst) == len(old(dst)) && sameSlice(dst, old(dst))) || (i.off == old(i.off)+1 && i.t == TagObjectStart && i.addNext == 0 && len(stack) == 2 && stack[1] == 3 && len(dst) == len(old(dst)) && sameSlice(dst, old(dst))) || (i.off == old(i.off)+2 && i.t == TagObjectEnd && i.addNext == 0 && len(stack) == 3 && stack[1] == 3 && stack[2] == 2 && appended1(dst, old(dst), '{')) || (i.off == old(i.off)+3 && i.t == TagRoot && i.cur == uint64(old(i.off))-1 && i.addNext == 0 && len(stack) == 2 && stack[1] == 3 && appended2(dst, old(dst), '{', '}'))
+//@   decreases 0 marshalMeasure(i)
+
